@@ -710,23 +710,43 @@ Qed.
 Lemma planar_act_is_spec ns z : planar_act ROps ns z = spec_act ROps ns z.
 Proof. destruct ns as [s|]; [apply leaky_relu_is_spec|apply th_tanh]. Qed.
 
-(* get_act_scale: u_hat = u + (m(w.u) - w.u) w / ||w||^2 *)
-Lemma planar_u_is_spec (w u : list R) : length u = length w -> spec_inner ROps w w <> 0 ->
-  planar_u ROps w u = spec_planar_u ROps w u.
+(* k = max(1, negative_slope) for leaky relu, 1 for tanh *)
+Lemma planar_k_is_spec ns : planar_k ROps ns = spec_k ROps ns.
+Proof.
+  destruct ns as [s|]; [|reflexivity]. unfold planar_k, spec_k, nmax; rops.
+  destruct (Rltb 1 s) eqn:E; destruct (Rleb s 1) eqn:E1;
+    rewrite ?Rleb_true, ?Rleb_false, ?Rltb_true, ?Rltb_false in *; try reflexivity; lra.
+Qed.
+Lemma spec_k_ge1 ns : 1 <= spec_k ROps ns.
+Proof.
+  destruct ns as [s|]; unfold spec_k; rops; [|lra].
+  destruct (Rleb s 1) eqn:E; rewrite ?Rleb_true, ?Rleb_false in *; lra.
+Qed.
+Lemma spec_k_ge_slope s : s <= spec_k ROps (Some s).
+Proof. unfold spec_k; rops. destruct (Rleb s 1) eqn:E; rewrite ?Rleb_true, ?Rleb_false in *; lra. Qed.
+
+(* get_act_scale: u_hat = u + (m(w.u)/k - w.u) w / ||w||^2 *)
+Lemma planar_u_is_spec ns (w u : list R) : length u = length w -> spec_inner ROps w w <> 0 ->
+  planar_u ROps ns w u = spec_planar_u ROps ns w u.
 Proof.
   intros Hl Hw. unfold planar_u, spec_planar_u, vadd.
   assert (Hn : sqrt (dot ROps w w) * sqrt (dot ROps w w) = spec_inner ROps w w).
   { rewrite dot_inner by reflexivity. apply sqrt_sqrt. apply sigma_sq_nonneg. }
+  pose proof (spec_k_ge1 ns) as Hk.
   apply (nth_ext _ _ 0 0).
   - rewrite lift2_length by (rewrite map_length; exact Hl). rewrite map_length, seq_length. exact Hl.
   - intros i Hi. rewrite lift2_length in Hi by (rewrite map_length; exact Hl).
     rewrite lift2_nth by (try (rewrite map_length; exact Hl); exact Hi).
-    rewrite map_seq_nth by lia. rops. rewrite Hn.
-    rewrite (map_nth_in _ w i 0) by lia.
-    rewrite (dot_comm u w) by exact Hl. rewrite (dot_inner w u) by lia. reflexivity.
+    rewrite map_seq_nth by lia. rewrite (map_nth_in _ w i 0) by lia.
+    rewrite planar_k_is_spec. rops. rewrite Hn.
+    rewrite (dot_comm u w) by exact Hl. rewrite (dot_inner w u) by lia.
+    unfold spec_m, spec_softplus; rops.
+    destruct ns as [s|]; [reflexivity|].
+    change (spec_k ROps None) with 1. f_equal. field. exact Hw.
 Qed.
 
-(* the purpose of the constraint (docstring: "to ensure invertibility"): w . u_hat = m(w . u) > -1 *)
+(* the purpose of the constraint (docstring: "to ensure invertibility"):
+   w . u_hat = m(w . u) / k > -1/k, hence 1 + w . u_hat > 0 and 1 + s (w . u_hat) > 0 *)
 Lemma sigma_add n (f g : nat -> R) : sigma ROps n (fun j => f j + g j) = sigma ROps n f + sigma ROps n g.
 Proof. induction n as [|n IH]; cbn [sigma]; rops; [ring|]. rewrite IH. ring. Qed.
 Lemma sigma_scal n k (f : nat -> R) : sigma ROps n (fun j => k * f j) = k * sigma ROps n f.
@@ -737,19 +757,40 @@ Proof.
   assert (0 < ln (1 + exp a)) by (rewrite <- ln_1; apply ln_increasing; lra).
   assert (0 < ln (1 + ln (1 + exp a))) by (rewrite <- ln_1 at 1; apply ln_increasing; lra). lra.
 Qed.
-Lemma planar_u_constraint (w u : list R) : length u = length w -> spec_inner ROps w w <> 0 ->
-  spec_inner ROps w (spec_planar_u ROps w u) = spec_m ROps (spec_inner ROps w u) /\
-  -1 < spec_inner ROps w (spec_planar_u ROps w u).
+Lemma planar_u_inner ns (w u : list R) : length u = length w -> spec_inner ROps w w <> 0 ->
+  spec_inner ROps w (spec_planar_u ROps ns w u) = spec_m ROps (spec_inner ROps w u) / spec_k ROps ns.
 Proof.
-  intros Hl Hw.
-  assert (E : spec_inner ROps w (spec_planar_u ROps w u) = spec_m ROps (spec_inner ROps w u)).
-  { unfold spec_inner at 1. set (a := spec_inner ROps w u). set (q := spec_inner ROps w w) in *.
-    rewrite (sigma_ext _ _ (fun j => nth j w 0 * nth j u 0 + ((spec_m ROps a - a) / q) * (nth j w 0 * nth j w 0))).
-    - rewrite sigma_add, sigma_scal.
-      change (sigma ROps (length w) (fun j => nth j w 0 * nth j u 0)) with a.
-      change (sigma ROps (length w) (fun j => nth j w 0 * nth j w 0)) with q. field. exact Hw.
-    - intros j Hj. unfold spec_planar_u. fold a q. rewrite map_seq_nth by exact Hj. rops. field. exact Hw. }
-  split; [exact E|]. rewrite E. apply spec_m_gt.
+  intros Hl Hw. pose proof (spec_k_ge1 ns) as Hk.
+  unfold spec_inner at 1. set (a := spec_inner ROps w u). set (q := spec_inner ROps w w) in *.
+  set (k := spec_k ROps ns) in *.
+  rewrite (sigma_ext _ _ (fun j => nth j w 0 * nth j u 0 + ((spec_m ROps a / k - a) / q) * (nth j w 0 * nth j w 0))).
+  - rewrite sigma_add, sigma_scal.
+    change (sigma ROps (length w) (fun j => nth j w 0 * nth j u 0)) with a.
+    change (sigma ROps (length w) (fun j => nth j w 0 * nth j w 0)) with q. field. split; [lra|exact Hw].
+  - intros j Hj. unfold spec_planar_u. fold a q k. rewrite map_seq_nth by exact Hj. rops. field. split; [lra|exact Hw].
+Qed.
+Lemma planar_u_constraint ns (w u : list R) : length u = length w -> spec_inner ROps w w <> 0 ->
+  let a := spec_inner ROps w (spec_planar_u ROps ns w u) in
+  (a = spec_m ROps (spec_inner ROps w u) / spec_k ROps ns) /\
+  (-1 / spec_k ROps ns < a) /\
+  (0 < 1 + a) /\
+  (forall s, ns = Some s -> 0 < s -> 0 < 1 + s * a).
+Proof.
+  intros Hl Hw a. pose proof (planar_u_inner ns w u Hl Hw) as E. fold a in E.
+  pose proof (spec_k_ge1 ns) as Hk. pose proof (spec_m_gt (spec_inner ROps w u)) as Hm.
+  set (k := spec_k ROps ns) in *. set (m := spec_m ROps (spec_inner ROps w u)) in *.
+  assert (Hak : a * k = m) by (rewrite E; field; lra).
+  split; [exact E|].
+  assert (H1 : -1 / k < a).
+  { rewrite E. unfold Rdiv. apply Rmult_lt_compat_r; [apply Rinv_0_lt_compat; lra|lra]. }
+  split; [exact H1|].
+  assert (H2 : 0 < 1 + a).
+  { destruct (Rle_lt_dec 0 a) as [Ha|Ha]; [lra|]. assert (a * k <= a * 1) by (apply Rmult_le_compat_neg_l; lra). lra. }
+  split; [exact H2|].
+  intros s -> Hs. pose proof (spec_k_ge_slope s) as Hks. fold k in Hks.
+  destruct (Rle_lt_dec 0 a) as [Ha|Ha].
+  - assert (0 <= s * a) by (apply Rmult_le_pos; lra). lra.
+  - assert (a * k <= a * s) by (apply Rmult_le_compat_neg_l; lra). lra.
 Qed.
 
 (* transform:  y = x + u_hat * act(w.x + b) *)
@@ -759,7 +800,7 @@ Lemma planar_is_spec ns (w u : list R) b (x : list R) :
 Proof.
   intros Hu Hx Hw. unfold planar_fwd, spec_planar, vadd, vscale.
   rewrite planar_u_is_spec by assumption. rewrite planar_act_is_spec. rewrite dot_inner by lia.
-  set (a := spec_act ROps ns _). set (uh := spec_planar_u ROps w u).
+  set (a := spec_act ROps ns _). set (uh := spec_planar_u ROps ns w u).
   assert (Hlu : length uh = length w) by (unfold uh, spec_planar_u; rewrite map_length, seq_length; reflexivity).
   apply (nth_ext _ _ 0 0).
   - rewrite lift2_length by (rewrite map_length; lia). rewrite map_length, seq_length. reflexivity.
@@ -771,7 +812,7 @@ Qed.
 Lemma planar_entry ns (w u : list R) b (x : list R) i :
   length u = length w -> length x = length w -> spec_inner ROps w w <> 0 -> (i < length x)%nat ->
   nth i (planar_fwd ROps ns w u b x) 0 =
-  nth i x 0 + nth i (spec_planar_u ROps w u) 0 * spec_act ROps ns (spec_inner ROps w x + b).
+  nth i x 0 + nth i (spec_planar_u ROps ns w u) 0 * spec_act ROps ns (spec_inner ROps w x + b).
 Proof.
   intros Hu Hx Hw Hi. rewrite planar_is_spec by assumption. unfold spec_planar.
   rewrite map_seq_nth by exact Hi. reflexivity.
@@ -938,3 +979,9 @@ Proof. intros H. split; [now apply leaky_value_at_m|now apply leaky_value_at_neg
 Lemma planar_act_cases ns z :
   planar_act ROps ns z = match ns with None => tanh z | Some s => if Rle_dec 0 z then z else s * z end.
 Proof. destruct ns as [s|]; [apply leaky_relu_cases|apply th_tanh]. Qed.
+
+Lemma planar_k_max ns : planar_k ROps ns = match ns with None => 1 | Some s => Rmax 1 s end.
+Proof.
+  destruct ns as [s|]; [|reflexivity]. unfold planar_k, nmax; rops. unfold Rmax.
+  destruct (Rltb 1 s) eqn:E; destruct (Rle_dec 1 s); rewrite ?Rltb_true, ?Rltb_false in *; try reflexivity; lra.
+Qed.
